@@ -6,6 +6,8 @@ package main
 import (
 	"fmt"
 	"math"
+	"math/big"
+	"sort"
 	"strconv"
 	"strings"
 )
@@ -14,7 +16,7 @@ type corner struct {
 	V          int64
 	VT, VN     int64
 	HasT, HasN bool
-	Spell      int // 0: canonical decimal spelling; otherwise an id unique per distinct token text of the file
+	Spell      string // "0": canonical decimal spelling; otherwise ObjText.enc of the token text (injective)
 }
 
 type line struct {
@@ -83,6 +85,35 @@ func canonical(c corner) string {
 	return strconv.FormatInt(c.V, 10)
 }
 
+// number tokens of the text tokenised last, with the float32 word Go's ParseFloat(.,32) gave them (the Coq text
+// layer takes number text from this table)
+var floatTab = map[string]uint32{}
+
+func coqBytes(s string) string {
+	var b strings.Builder
+	b.WriteString("[")
+	for i := 0; i < len(s); i++ {
+		if i > 0 {
+			b.WriteString(";")
+		}
+		b.WriteString(strconv.Itoa(int(s[i])))
+	}
+	b.WriteString("]")
+	return b.String()
+}
+func coqFloatTab() string {
+	keys := make([]string, 0, len(floatTab))
+	for k := range floatTab {
+		keys = append(keys, k)
+	}
+	sort.Strings(keys)
+	items := make([]string, len(keys))
+	for i, k := range keys {
+		items[i] = fmt.Sprintf("(%s,%d)", coqBytes(k), floatTab[k])
+	}
+	return "[" + strings.Join(items, ";") + "]"
+}
+
 func floats(toks []string, n int) ([]uint32, error) {
 	if len(toks) < n {
 		return nil, fmt.Errorf("want %d numbers, have %d", n, len(toks))
@@ -94,6 +125,7 @@ func floats(toks []string, n int) ([]uint32, error) {
 			return nil, err
 		}
 		out[i] = math.Float32bits(float32(f))
+		floatTab[toks[i]] = out[i]
 	}
 	return out, nil
 }
@@ -101,14 +133,17 @@ func floats(toks []string, n int) ([]uint32, error) {
 // tokenise splits OBJ text into line records; blank lines carry no record (both readers skip them).
 func tokenise(text string) ([]line, error) {
 	var out []line
-	spell := map[string]int{}
+	floatTab = map[string]uint32{}
 	corn := func(tok string) (corner, error) {
 		c, err := parseCorner(tok)
+		c.Spell = "0"
 		if err == nil && canonical(c) != tok {
-			if spell[tok] == 0 {
-				spell[tok] = len(spell) + 1
+			e := big.NewInt(1) // Formats/ObjText.v enc: fold_left (a*256+b) tok 1
+			for i := 0; i < len(tok); i++ {
+				e.Mul(e, big.NewInt(256))
+				e.Add(e, big.NewInt(int64(tok[i])))
 			}
-			c.Spell = spell[tok]
+			c.Spell = e.String()
 		}
 		return c, err
 	}
@@ -117,9 +152,11 @@ func tokenise(text string) ([]line, error) {
 			return false
 		}
 		for _, t := range toks {
-			if _, err := strconv.ParseFloat(t, 32); err != nil {
+			f, err := strconv.ParseFloat(t, 32)
+			if err != nil {
 				return false
 			}
+			floatTab[t] = math.Float32bits(float32(f))
 		}
 		return true
 	}
@@ -201,7 +238,11 @@ func coqCorner(c corner) string {
 	if c.HasN {
 		n = "Some " + coqZ(c.VN)
 	}
-	return fmt.Sprintf("(%s,%s,%s,%d%%N)", coqZ(c.V), t, n, c.Spell)
+	sp := c.Spell
+	if sp == "" {
+		sp = "0"
+	}
+	return fmt.Sprintf("(%s,%s,%s,%s%%N)", coqZ(c.V), t, n, sp)
 }
 func coqLine(l line) string {
 	switch l.Kind {
